@@ -125,6 +125,27 @@ pub fn build_engine_with(
     e
 }
 
+/// Two answers that differ only in `redirect` are still equal for the differential monitors if both
+/// values belong to the resources of the equal-highest-priority matching redirect rules: which of
+/// several equal-priority redirects wins is left open by the statement (C13's oracle is set-valued)
+/// and legitimately depends on bucket order.
+pub fn differs_only_by_redirect_tie(
+    got: &Answer,
+    want: &Answer,
+    rules: &[String],
+    tags: &std::collections::HashSet<String>,
+    rq: &Request,
+    url: &str,
+    resdefs: &[ResDef],
+) -> bool {
+    if got.matched != want.matched || got.important != want.important || got.exception != want.exception || got.rewritten != want.rewritten || got.csp != want.csp {
+        return false;
+    }
+    let mut scan = crate::oracle::scan::Scan::new(rules, ParseOptions::default());
+    let v = scan.verdict(rq, url, tags, &crate::oracle::resources::ResModel { defs: resdefs });
+    v.redirect_ok.len() > 1 && v.redirect_ok.contains(&got.redirect) && v.redirect_ok.contains(&want.redirect)
+}
+
 /// Greedy delta-debugging over rule lines: drop rules while `still_fails` keeps holding.
 pub fn minimize_rules(rules: &[String], mut still_fails: impl FnMut(&[String]) -> bool) -> Vec<String> {
     let mut cur: Vec<String> = rules.to_vec();
